@@ -328,6 +328,29 @@ func checkC09(c *Ctx) {
 		}
 		bws = append(bws, bw{"equal_score_modules", files2, append([]proto.Step{openStep("c/y/user.lua", files2["c/y/user.lua"])}, q2...), len(q2), "Dev_EqualScoreCandidates"})
 	}
+	// two entry files whose projects share files and resolve one global name differently: the projects are analysed by
+	// their own goroutines and kept in a map; answers about the shared files must not depend on which comes first
+	{
+		files := map[string]string{
+			"luahelper.json": `{"ShowWarnFlag":1,"ProjectFiles":["main1.lua","main2.lua"]}`,
+			"main1.lua":      "require(\"defs1\")\nrequire(\"user\")\n",
+			"main2.lua":      "require(\"defs1\")\nrequire(\"defs2\")\nrequire(\"user\")\n",
+			"defs1.lua":      "function helper(a) return a end\nshared_n = 1\n",
+			"defs2.lua":      "function helper(a, b) return b end\nshared_n = 2\n",
+			"user.lua":       "local v = helper(1)\nprint(v, shared_n)\n",
+		}
+		q := []proto.Step{
+			{M: "textDocument/references", P: refParams("defs1.lua", 0, 11)},
+			{M: "textDocument/references", P: refParams("defs2.lua", 0, 11)},
+			{M: "textDocument/references", P: refParams("defs1.lua", 1, 2)},
+			{M: "textDocument/definition", P: posParams("user.lua", 0, 12)},
+			{M: "textDocument/definition", P: posParams("user.lua", 1, 10)},
+			{M: "textDocument/hover", P: posParams("user.lua", 0, 12)},
+			{M: "textDocument/rename", P: json.RawMessage(`{"textDocument":{"uri":"file://$ROOT/defs1.lua"},"position":{"line":0,"character":11},"newName":"zz"}`)},
+		}
+		st := []proto.Step{openStep("defs1.lua", files["defs1.lua"]), openStep("defs2.lua", files["defs2.lua"]), openStep("user.lua", files["user.lua"])}
+		bws = append(bws, bw{"two_projects_shared", files, append(st, q...), len(q), ""})
+	}
 	// the same workspaces with an entry file configured: the project pass (its own goroutines and tables) runs too
 	for _, b := range append([]bw{}, bws...) {
 		entry := ""
